@@ -374,3 +374,28 @@ Definition rpm_meta (archtab : list (str * str)) (i : minfo) : option (list (str
         ++ pr ++ rq ++ cf ++ ob ++ rc ++ sg)
   | _, _, _, _, _, _ => None
   end.
+
+(* ---- ConventionalFileName of the five packagers ---- *)
+Definition valid_pkg_char' (b : byte) : bool :=
+  let n := Byte.to_N b in
+  ((48 <=? n)%N && (n <=? 57)%N) || ((65 <=? n)%N && (n <=? 90)%N) || ((97 <=? n)%N && (n <=? 122)%N)
+  || beq b "."%byte || beq b "_"%byte || beq b "+"%byte || beq b "-"%byte.
+
+Definition deb_name_version (i : minfo) : str :=
+  gs i "version"
+  ++ (if nonempty (gs i "prerelease") then B "~" ++ gs i "prerelease" else [])
+  ++ (if nonempty (gs i "version_metadata") then B "+" ++ gs i "version_metadata" else [])
+  ++ (if nonempty (gs i "release") then B "-" ++ gs i "release" else []).
+
+Definition model_filename (f : fmt) (archtab : list (str * str)) (i : minfo) : str :=
+  match f with
+  | FDeb => gs i "name" ++ B "_" ++ deb_name_version i ++ B "_" ++ translate_arch archtab (gs i "deb.arch") (gs i "arch") ++ B ".deb"
+  | FIpk => gs i "name" ++ B "_" ++ deb_name_version i ++ B "_" ++ translate_arch archtab (gs i "ipk.arch") (gs i "arch") ++ B ".ipk"
+  | FRpm => gs i "name" ++ B "-" ++ rpm_version i ++ B "-" ++ dflt (gs i "release") (B "1") ++ B "."
+            ++ translate_arch archtab (gs i "rpm.arch") (gs i "arch") ++ B ".rpm"
+  | FApk => gs i "name" ++ B "_" ++ apk_version i ++ B "_" ++ translate_arch archtab (gs i "apk.arch") (gs i "arch") ++ B ".apk"
+  | FArch =>
+      let raw := gs i "name" ++ B "-" ++ gs i "version" ++ replace_byte "-"%byte "_"%byte (gs i "prerelease")
+                 ++ B "-" ++ dec (arch_pkgrel i) ++ B "-" ++ translate_arch archtab (gs i "archlinux.arch") (gs i "arch") ++ B ".pkg.tar.zst" in
+      drop_while (fun b => beq b "-"%byte || beq b "."%byte) (filter valid_pkg_char' raw)
+  end.
